@@ -64,10 +64,11 @@ func init() {
 
 func kitSets(cfg *kitServeCfg) (map[int]plugin.PluginSet, plugin.PluginSet) {
 	mk := func(proto string, tag int) plugin.PluginSet {
+		// ("plugin-only": a name the plugin serves and the HOST's set does not have)
 		if proto == "grpc" {
-			return plugin.PluginSet{"kit": &kitGRPCPlugin{kitPlugin{tag: tag}}}
+			return plugin.PluginSet{"kit": &kitGRPCPlugin{kitPlugin{tag: tag}}, "plugin-only": &kitGRPCPluginOnly{}}
 		}
-		return plugin.PluginSet{"kit": &kitPlugin{tag: tag}}
+		return plugin.PluginSet{"kit": &kitPlugin{tag: tag}, "plugin-only": &kitPlugin{tag: tag}}
 	}
 	var vp map[int]plugin.PluginSet
 	if len(cfg.Sets) > 0 {
